@@ -475,6 +475,17 @@ def _fullstack(ctx, case):
     # once, or collect trailing responses for a moment), segmentation must not make it later; and it must not approach the 2 s read
     # timeout.  Measured from the instant the device received the request.
     late = (t1 - plan["t_req"]) - plan["t_first"]
+    # (with a gap between segments every segment has its own instant, so "complete at the instant the send returned" means "in the
+    # very segment that completed the first packet"; without gaps only strictly earlier completions are counted)
+    # (... and only if the send returned at that very instant: a send that lingers has timers of its own, and a packet completing
+    # exactly when such a timer fires is a tie on the virtual clock, not a withheld packet)
+    slack = 1e-9 if (case["gap"] and abs(late) < 1e-9) else -1e-6
+    arrived = sum(1 for d in plan["done_at"] if d <= (t1 - plan["t_req"]) + slack)
+    if len(got) < arrived:
+        ctx.count(key_, kind="fullstack-late")
+        ctx.violation("fullstack-withheld", f"{arrived} packets of the reply had completely arrived before the first send returned, it returned {len(got)} "
+                      f"(the rest only came out of the next send)", case, {"cuts": plan.get("cuts")})
+        return
     try:
         plan0, t1_0, got_0, got2_0 = one_run(reference_of=plan["done_at"])
         late0 = (t1_0 - plan0["t_req"]) - plan0["t_first"]
